@@ -92,6 +92,9 @@ func TestC09(t *testing.T) {
 	rec.Require("send-ok", "send-failed")
 	pktHistories(rec, mon.Scale(48, 1600), func(i int, c *world.PktCfg) { c.PSend, c.PFailSend, c.PAdv = 0.4, 0.15, 0.08 },
 		func() []world.Monitor { return []world.Monitor{&props.C09{R: rec}} })
+	// the token workload as well: returns of vouchers, partial amounts, sends of more than owned, relayed routes
+	tokHistories(rec, mon.Scale(24, 800), func(i int, c *world.TokCfg) { c.Hostile = 0 },
+		func() []world.Monitor { return []world.Monitor{&props.C09{R: rec}} })
 	setExit(rec.Finish())
 }
 
